@@ -320,6 +320,7 @@ class Plan:
         self.counter = itertools.count()
         self.expr = ' '.join(self._expr(tree))
         self._src = {}
+        self.hint = 0            # total number of samples the case draws: sources are built once at that size
 
     def _expr(self, node):
         t = node['t']
@@ -365,6 +366,8 @@ class Plan:
             have = len(cur[0]) if letter == 'F' else (need if np.ndim(cur) == 0 else len(cur))
             if have >= need:
                 return cur
+            need = max(need, 2 * have)
+        need = max(need, getattr(self, 'hint', 0))
         node = self.nodes[i]
         t = node['t']
         from psiaudio import stim
